@@ -1,8 +1,103 @@
 import ScVerif.C05.Drv
-/-! Driver handler for C06: the same stateful handler as C05 (shared message-tree model); the C06
-operations are `rvalidate`, `rfilter`, `project` plus the library operations. -/
-namespace ScVerif.C06
+import ScVerif.C06.Opts
+import ScVerif.C06.Heap
+/-! Driver handler for C06: the stateful handler shared with C05 (message-tree model; the C06
+operations there are `rvalidate`, `rfilter`, `project`), extended with the read-option operations:
 
-def handleS := ScVerif.C05.handleS
+  rconfig <ty> <opts>          -> panic | <mask> U<0|1> B<0|1> I<n|->     (ComputeReadConfig)
+  ropts <ty> <opts> <msg>      -> panic | msg          (a read with the option list: ReadRequest.FilterClone)
+  ospec <opts>                 -> <mask>               (specification: the last mask option, nil if none)
+  rfopts <masks> <msg>         -> panic | msg          (NewResponseFilter(WithFieldMask...).FilterClone)
+
+`<opts>`: `_` (none) or options joined by `,`: `M<mask>` WithReadMask, `P<mask>` WithReadPaths
+(`P-`: no paths), `U0|U1`, `B0|B1`, `I<n>` / `I-` WithInclude, `E` EmptyReadOption.
+`<masks>`: `_` or masks joined by `,`.
+
+  hfilter inplace|clone <mask> <own> <refs> <ref> <heap0> <heap1> ...   -> <container> | <heap0> <heap1> ...
+      ResponseFilter.Filter / FilterClone on a container whose fields are the fields of the message <own>
+      (owned), a repeated message field `<refs>` = `name:a+b+..` whose elements are the stored messages at
+      those heap addresses and a singular message field `<ref>` = `name:a` (`-`: none); answer: what the
+      returned container shows and the heap afterwards. -/
+namespace ScVerif.C06
+open ScVerif.C05 ScVerif.C05.Codec
+
+def parseOpt (s : String) : Option ReadOpt :=
+  match s.toList with
+  | 'M' :: rest => (parseMask (String.ofList rest)).map .readMask
+  | 'P' :: rest =>
+    match parseMask (String.ofList rest) with
+    | some (some ps) => some (.readPaths ps)
+    | _ => none
+  | ['U', '0'] => some (.updatesOnly false)
+  | ['U', '1'] => some (.updatesOnly true)
+  | ['B', '0'] => some (.backpressure false)
+  | ['B', '1'] => some (.backpressure true)
+  | ['I', '-'] => some (.incl none)
+  | 'I' :: rest => (String.ofList rest).toNat?.map (fun n => .incl (some n))
+  | ['E'] => some .empty
+  | _ => none
+
+def parseOpts (s : String) : Option (List ReadOpt) :=
+  if s = "_" then some [] else (s.splitOn ",").mapM parseOpt
+
+def parseMasks (s : String) : Option (List (Option (List Path))) :=
+  if s = "_" then some [] else (s.splitOn ",").mapM parseMask
+
+def showMaskOpt : Option (List Path) → String
+  | none => "~"
+  | some ps => showPaths ps
+
+def showRR (rr : ReadRequest) : String :=
+  showMaskOpt rr.readMask ++ " U" ++ (if rr.updatesOnly then "1" else "0")
+    ++ " B" ++ (if rr.backpressure then "1" else "0")
+    ++ " I" ++ (match rr.incl with | none => "-" | some n => toString n)
+
+def ownOf : Fields → Container
+  | .nil => []
+  | .cons k v rest => (k, .own v) :: ownOf rest
+
+def parseRefs (s : String) : Option (List (Name × List Nat)) :=
+  if s = "-" then some []
+  else match s.splitOn ":" with
+    | [n, as] => ((as.splitOn "+").mapM String.toNat?).map (fun as => [(n, as)])
+    | _ => none
+
+def hfilter (inplace : Bool) (mask : Option (List Path)) (own : Fields) (refs ref : List (Name × List Nat))
+    (h : Heap) : String :=
+  let c : Container := ownOf own ++ refs.map (fun (n, as) => (n, .refs as))
+    ++ ref.filterMap (fun (n, as) => as.head?.map (fun a => (n, .ref a)))
+  let r := if inplace then filterInPlace mask h c else filterCloneH mask h c
+  showMsg (resolve r.2 r.1) ++ " |" ++ String.join (r.2.map (fun m => " " ++ showMsg m))
+
+def handleS (S : Schema) (toks : List String) : Schema × String :=
+  let bad := (S, "!bad-op")
+  match toks with
+  | "hfilter" :: mode :: m :: own :: refs :: ref :: heap =>
+    match parseMask m, parseMessage own, parseRefs refs, parseRefs ref, heap.mapM parseMessage with
+    | some m, some own, some refs, some ref, some h =>
+      if mode = "inplace" then (S, hfilter true m own refs ref h)
+      else if mode = "clone" then (S, hfilter false m own refs ref h)
+      else bad
+    | _, _, _, _, _ => bad
+  | ["rconfig", ty, o] =>
+    match ty.toNat?, parseOpts o with
+    | some ty, some opts =>
+      match computeReadConfig S ty opts with
+      | some rr => (S, showRR rr)
+      | none => (S, "panic")
+    | _, _ => bad
+  | ["ropts", ty, o, x] =>
+    match ty.toNat?, parseOpts o, parseMessage x with
+    | some ty, some opts, some fs => (S, showOut (readWith S ty opts fs))
+    | _, _, _ => bad
+  | ["ospec", o] =>
+    match parseOpts o with
+    | some opts => (S, showMaskOpt (effectiveMask opts))
+    | none => bad
+  | ["rfopts", ms, x] =>
+    match parseMasks ms, parseMessage x with
+    | some ms, some fs => (S, showOut (filterClone (newResponseFilter ms) fs))
+    | _, _ => bad
+  | _ => ScVerif.C05.handleS S toks
 
 end ScVerif.C06
